@@ -204,6 +204,8 @@ impl Property for C03 {
                 if cfg.seqs.first().map(|s| s % 3 == 0).unwrap_or(false) {
                     cfg.nat_peers = vec![1];
                 }
+                // in half of the cases the records are dual-stack (an IPv6 socket nobody listens at)
+                cfg.dual_records = cfg.seqs.get(1).map(|s| s % 2 == 0).unwrap_or(false);
                 Case { cfg, ops }
             })
             .boxed()
